@@ -85,12 +85,12 @@ def vfiles():
 
 # translation obligations: definitions regenerated from /repo's source on every run (harness/translate.py) and proved equal to
 # the model by conversion; a property lists the generated files its theorems lean on
-TRANSLATED = {"C05": ["NAdvanceGen", "MultistageGen", "SeqGen", "HSeqGen", "HoptGen", "OptInfGen", "Opt0Gen"], "C13": ["NAdvanceGen", "TwoLevelGen"], "C17": ["NAdvanceGen", "SeqGen", "HSeqGen", "HoptGen", "OptInfGen", "Opt0Gen"], "C10": ["FinalizeGen"], "C18": ["ActValGen"], "C11": ["ObserversGen"],
-              "C01": ["BasicGen", "TwoLevelGen", "MultistageGen", "ConverterGen", "ConvertGen", "MixedGen", "SeqGen", "HSeqGen", "HoptGen", "OptInfGen", "Opt0Gen"], "C02": ["BasicGen", "TwoLevelGen", "MultistageGen", "ConverterGen", "MixedGen", "SeqGen", "HSeqGen", "HoptGen", "OptInfGen", "Opt0Gen"],
-              "C03": ["BasicGen", "TwoLevelGen", "MultistageGen", "ConverterGen", "MixedGen", "SeqGen", "HSeqGen", "HoptGen", "OptInfGen", "Opt0Gen"], "C04": ["BasicGen", "TwoLevelGen", "MultistageGen", "ConverterGen", "MixedGen", "SeqGen", "HSeqGen", "HoptGen", "OptInfGen", "Opt0Gen"],
-              "C08": ["BasicGen", "TwoLevelGen", "MultistageGen", "ConverterGen", "MixedGen", "SeqGen", "HSeqGen", "HoptGen", "OptInfGen", "Opt0Gen"], "C09": ["BasicGen", "TwoLevelGen", "MultistageGen", "ConverterGen", "MixedGen", "SeqGen", "HSeqGen", "HoptGen", "OptInfGen", "Opt0Gen"],
-              "C12": ["BasicGen", "TwoLevelGen", "MultistageGen", "ConverterGen", "ConvertGen", "MixedGen", "SeqGen", "HSeqGen", "HoptGen", "OptInfGen", "Opt0Gen"], "C14": ["MultistageGen"], "C06": ["MemoGen", "MixedGen"], "C15": ["MemoGen", "BasicGen", "TwoLevelGen", "MultistageGen", "ConverterGen", "MixedGen", "SeqGen", "HSeqGen", "HoptGen", "OptInfGen", "Opt0Gen"],
-              "C16": ["MemoGen", "MixedGen"], "C07": ["SeqGen", "HSeqGen", "HoptGen", "OptInfGen", "Opt0Gen"], "C19": ["SeqGen", "HSeqGen", "HoptGen", "OptInfGen", "Opt0Gen"]}
+TRANSLATED = {"C05": ["NAdvanceGen", "MultistageGen", "SeqGen", "HSeqGen", "HoptGen", "OptInfGen", "Opt0Gen", "SeqPins", "AllocPins", "HelperPins"], "C13": ["NAdvanceGen", "TwoLevelGen"], "C17": ["NAdvanceGen", "SeqGen", "HSeqGen", "HoptGen", "OptInfGen", "Opt0Gen", "MemoGen", "TabulGen", "SeqPins"], "C10": ["FinalizeGen"], "C18": ["ActValGen", "EnumPins"], "C11": ["ObserversGen", "EnumPins"],
+              "C01": ["BasicGen", "TwoLevelGen", "MultistageGen", "ConverterGen", "ConvertGen", "MixedGen", "SeqGen", "HSeqGen", "HoptGen", "OptInfGen", "Opt0Gen", "MemoGen", "TabulGen", "SeqPins", "AllocPins", "EnumPins"], "C02": ["BasicGen", "TwoLevelGen", "MultistageGen", "ConverterGen", "MixedGen", "SeqGen", "HSeqGen", "HoptGen", "OptInfGen", "Opt0Gen", "MemoGen", "TabulGen", "SeqPins", "AllocPins", "EnumPins"],
+              "C03": ["BasicGen", "TwoLevelGen", "MultistageGen", "ConverterGen", "MixedGen", "SeqGen", "HSeqGen", "HoptGen", "OptInfGen", "Opt0Gen", "MemoGen", "TabulGen", "SeqPins", "AllocPins", "EnumPins"], "C04": ["BasicGen", "TwoLevelGen", "MultistageGen", "ConverterGen", "MixedGen", "SeqGen", "HSeqGen", "HoptGen", "OptInfGen", "Opt0Gen", "MemoGen", "TabulGen", "SeqPins", "AllocPins", "EnumPins"],
+              "C08": ["BasicGen", "TwoLevelGen", "MultistageGen", "ConverterGen", "MixedGen", "SeqGen", "HSeqGen", "HoptGen", "OptInfGen", "Opt0Gen", "MemoGen", "TabulGen", "SeqPins", "AllocPins", "EnumPins"], "C09": ["BasicGen", "TwoLevelGen", "MultistageGen", "ConverterGen", "MixedGen", "SeqGen", "HSeqGen", "HoptGen", "OptInfGen", "Opt0Gen", "MemoGen", "TabulGen", "SeqPins", "AllocPins", "EnumPins"],
+              "C12": ["BasicGen", "TwoLevelGen", "MultistageGen", "ConverterGen", "ConvertGen", "MixedGen", "SeqGen", "HSeqGen", "HoptGen", "OptInfGen", "Opt0Gen", "MemoGen", "TabulGen", "SeqPins", "AllocPins", "EnumPins"], "C14": ["MultistageGen", "AllocPins"], "C06": ["MemoGen", "MixedGen", "TabulGen", "HelperPins"], "C15": ["MemoGen", "TabulGen", "BasicGen", "TwoLevelGen", "MultistageGen", "ConverterGen", "MixedGen", "SeqGen", "HSeqGen", "HoptGen", "OptInfGen", "Opt0Gen", "SeqPins", "AllocPins", "EnumPins"],
+              "C16": ["MemoGen", "MixedGen", "TabulGen"], "C07": ["SeqGen", "HSeqGen", "HoptGen", "OptInfGen", "Opt0Gen", "SeqPins"], "C19": ["SeqGen", "HSeqGen", "HoptGen", "OptInfGen", "Opt0Gen", "SeqPins"]}
 
 
 def translation_layer(pid, res):
@@ -134,15 +134,25 @@ def proof_layer(pid, tier):
                     continue
             res["ok"] = False
             res["detail"].append("forbidden token %r in %s" % (tok, os.path.relpath(p, VERIF)))
-    if tier == "thorough":
-        sh("make -C %s clean" % COQ, 300)
-    if not os.path.exists(os.path.join(COQ, "Makefile")):
+    mk, cp = os.path.join(COQ, "Makefile"), os.path.join(COQ, "_CoqProject")
+    if not os.path.exists(mk) or os.path.getmtime(cp) > os.path.getmtime(mk):
         sh("coq_makefile -f _CoqProject -o Makefile", 60, cwd=COQ)
+    srckey = sha_files(vfiles())
+    cleanmark = os.path.join(COQ, ".clean_build_key")
+    # thorough: everything is rebuilt from clean -- once per state of the sources (the key is a hash of every .v file): the other
+    # properties of a sweep over the same sources reuse that build
+    clean_needed = tier == "thorough" and not (os.path.exists(cleanmark) and open(cleanmark).read() == srckey)
+    if clean_needed:
+        sh("make -C %s clean" % COQ, 300)
+        for f in glob.glob(os.path.join(COQ, "Props", "*.stamp")) + glob.glob(os.path.join(COQ, "Props", "*.vo")) + glob.glob(os.path.join(COQ, "Gen", "*.vo")):
+            os.remove(f)
     code, log = sh("make -C %s -j16" % COQ, 3000)
     if code != 0:
         res["ok"] = False
         res["detail"].append("coq build failed (exit %d): %s" % (code, log.strip()[-600:]))
         return res
+    if clean_needed:
+        open(cleanmark, "w").write(srckey)
     pv = os.path.join(COQ, "Props", pid + ".v")
     if not os.path.exists(pv):
         res["ok"] = False
@@ -185,11 +195,37 @@ def proof_layer(pid, tier):
     translation_layer(pid, res)
     res["discharged"] = (min(closed, len(thms)) + res.get("discharged_extra", 0)) if res["ok"] else 0
     if tier == "thorough":
-        code, log2 = sh("coqchk -silent -o -R . CS CS.Props.%s" % pid, 1800, cwd=COQ)
-        res["coqchk"] = log2.strip()[-1500:]
-        if code != 0:
+        # coqchk re-checks the property file and everything it depends on; most of that closure is shared by the nineteen property
+        # files, so ONE run over all of them is made per state of the sources and its verdict reused
+        ckf = os.path.join(COQ, "Props", "coqchk_all.json")
+        ck = None
+        if os.path.exists(ckf):
+            try:
+                ck = json.load(open(ckf))
+            except Exception:  # noqa
+                ck = None
+        if not (ck and ck.get("key") == key and pid in ck.get("modules", [])):
+            mods = []
+            for q in sorted(props.PROPS):
+                qv = os.path.join(COQ, "Props", q + ".v")
+                qs = qv[:-2] + ".stamp"
+                if not (os.path.exists(qs) and open(qs).read() == key and os.path.exists(qv + "o")):
+                    c2, l2 = sh("coqc -R . CS Props/%s.v" % q, 900, cwd=COQ)
+                    open(qv[:-2] + ".out", "w").write(l2)
+                    if c2 == 0:
+                        open(qs, "w").write(key)
+                    elif os.path.exists(qs):
+                        os.remove(qs)
+                    if c2 != 0:
+                        continue
+                mods.append(q)
+            code, log2 = sh("coqchk -silent -o -R . CS " + " ".join("CS.Props.%s" % q for q in mods), 3600, cwd=COQ)
+            ck = dict(key=key, modules=mods, code=code, log=log2.strip()[-3000:])
+            json.dump(ck, open(ckf, "w"))
+        res["coqchk"] = ck["log"][-1500:]
+        if ck["code"] != 0 or pid not in ck["modules"]:
             res["ok"] = False
-            res["detail"].append("coqchk failed (exit %d)" % code)
+            res["detail"].append("coqchk failed (exit %s)" % ck["code"])
     return res
 
 
@@ -364,7 +400,7 @@ def main():
     ev = dict(property_id=pid, tier=tier, seed=seed, level="proof", assumptions=TRUSTED_BASE)
     cov = dict(obligations=proof["obligations"], discharged=proof["discharged"],
                checker_cmd="make -C coq -j16 && coqc -R . CS Props/%s.v  (Print Assumptions under every theorem)%s" % (
-                   pid, "; coqchk -o CS.Props.%s" % pid if tier == "thorough" else ""),
+                   pid, "; make clean && make; coqchk -o over all property files (one run per state of the sources)" if tier == "thorough" else ""),
                trusted_base=TRUSTED_BASE, theorems=proof["theorems"], partial_theorems=proof["partial"],
                refuted_theorems=proof["refuted"], proof_layer_detail=proof["detail"])
     if "coqchk" in proof:
